@@ -996,7 +996,17 @@ def r7(ctx):
                 and isinstance(c.func.value, ast.Name)}
     hdr = {src(c.args[0]) for c in walk_no_nested(f) if isinstance(c, ast.Call) and last_name(dotted(c.func) or '') == 'AlignmentFile' and len(c.args) >= 2
            and isinstance(c.args[1], ast.Constant) and 'w' in str(c.args[1].value)}
-    ok = marg is not None and bool((names_in(marg) | via) & applists) and bool(names_in(marg) & hdr)
+    # what else flows into the locals the merge input is read through: `xs = [hdr]; xs.extend(job_bams)` / `xs += job_bams`
+    contrib = set(names_in(marg)) if marg is not None else set()
+    for n_ in walk_no_nested(f):
+        if isinstance(n_, ast.Call) and isinstance(n_.func, ast.Attribute) and n_.func.attr in ('extend', 'append', 'insert') and isinstance(n_.func.value, ast.Name) and n_.func.value.id in via:
+            for a_ in n_.args:
+                contrib |= names_in(a_)
+        if isinstance(n_, ast.AugAssign) and isinstance(n_.target, ast.Name) and n_.target.id in via:
+            contrib |= names_in(n_.value)
+        if isinstance(n_, ast.Assign) and len(n_.targets) == 1 and isinstance(n_.targets[0], ast.Name) and n_.targets[0].id in via:
+            contrib |= names_in(n_.value)
+    ok = marg is not None and bool((contrib | via) & applists) and bool(contrib & hdr)
     ctx.emit('C05-R7', ok, BTM, mg[0] if mg else f, f'merge input = {src(marg) if marg is not None else None} (header BAM {sorted(hdr)} + every job BAM {sorted(applists)})', key='merge-input')
     # the iterator settings reach the workers complete: only the region / handle / callback keys may be removed from them.  A dictionary that is
     # rebuilt from a list of settings to keep must list every setting the caller can set.
